@@ -230,6 +230,10 @@ pub struct WorkerArgs {
     pub replay_dir: String,
     pub only_run: Option<u64>,
     pub skip: Vec<u64>,
+    /// execute only the runs of this shard with `from <= index <= upto` (history replay: a run that violates
+    /// the property only after earlier runs of the same process)
+    pub from: Option<u64>,
+    pub upto: Option<u64>,
 }
 
 /// Per-run digest of everything a run did; two processes given the same
@@ -261,9 +265,12 @@ pub fn worker<L: Lane>(a: &WorkerArgs) -> i32 {
                 continue;
             }
         }
-        if a.skip.contains(&idx) {
+        if a.skip.contains(&idx) || a.from.is_some_and(|f| idx < f) {
             idx += a.shards;
             continue;
+        }
+        if a.upto.is_some_and(|u| idx > u) {
+            break;
         }
         // the driver attributes a crash of this process to the run recorded here (rewritten in place:
         // millions of runs must not produce millions of log lines)
